@@ -1078,6 +1078,21 @@ func c04History(r *RunCtx, p *PRNG, k int) error {
 			}
 		}
 	}
+	// a plan whose record carries what was once paid for it (the v4 upgrade and a genesis import write that field, a
+	// purchase does not): upgraded like any other plan, at the price list
+	if e.Height > 0 {
+		if err := w.buy(c04Buy{Creator: 3, For: Acct(3).String(), Days: 90, Bytes: 5 * c04GB, Denom: "ujkl"}); err != nil {
+			return err
+		}
+		if pi, found := e.App.StorageKeeper.GetStoragePaymentInfo(e.Ctx, Acct(3).String()); found && pi.End.After(e.Ctx.BlockTime()) {
+			pi.Coins = sdk.NewCoins(sdk.NewInt64Coin("ujkl", 1_000_000))
+			e.App.StorageKeeper.SetStoragePaymentInfo(e.Ctx, pi)
+			w.trace = append(w.trace, map[string]interface{}{"op": "the plan record of account 3 carries Coins = 1000000ujkl (as after the v4 upgrade or a genesis import)"})
+			if err := w.buy(c04Buy{Creator: 3, For: Acct(3).String(), Days: 60, Bytes: 40_000 * c04GB, Denom: "ujkl"}); err != nil {
+				return err
+			}
+		}
+	}
 	// exabyte files kept for months: kilobytes x hours beyond 2^63 (the validation only bounds FileSize*MaxProofs)
 	if e.Height > 0 {
 		for i, big := range [][3]int64{{9_000_000_000_000_000_000, 1, 1_230_000}, {3_000_000_000_000_000_000, 3, 14_400 * 120}, {1 << 62, 2, 14_400*365*3 + 7}} {
